@@ -102,7 +102,11 @@ class LetEnv:
                 if isinstance(l, dict) and l.get("k") == "local":
                     self.assigned.add(l["id"])
 
-    def init_of(self, local):
+    def init_of(self, local, any_type=False):
+        """Initialiser of a single-assignment local. By default only boolean locals are inlined (they are
+        named sub-formulas); other locals stay atoms/values unless the caller asks (decision-tree positions)."""
+        if not any_type and local.get("ty") != "bool":
+            return None
         i = self.inits.get(local["id"], [])
         if len(i) == 1 and local["id"] not in self.assigned:
             return i[0]
@@ -298,8 +302,8 @@ def decide(e, val, env=None, is_atom=None):
     """Evaluate an if/else-if decision tree whose leaves are arbitrary expressions;
     returns the canonical text of the selected leaf."""
     e = strip(e)
-    if e.get("k") == "local" and env is not None and env.init_of(e) is not None:
-        return decide(env.init_of(e), val, env, is_atom)
+    if e.get("k") == "local" and env is not None and env.init_of(e, True) is not None:
+        return decide(env.init_of(e, True), val, env, is_atom)
     if e.get("k") == "if" and "e" in e:
         if evalb(e["c"], val, env, is_atom):
             return decide(e["t"], val, env, is_atom)
@@ -313,8 +317,8 @@ def decision_atoms(e, env=None, is_atom=None, out=None):
     if out is None:
         out = []
     e = strip(e)
-    if e.get("k") == "local" and env is not None and env.init_of(e) is not None:
-        return decision_atoms(env.init_of(e), env, is_atom, out)
+    if e.get("k") == "local" and env is not None and env.init_of(e, True) is not None:
+        return decision_atoms(env.init_of(e, True), env, is_atom, out)
     if e.get("k") == "if" and "e" in e:
         atoms(e["c"], env, is_atom, out)
         decision_atoms(e["t"], env, is_atom, out)
@@ -421,3 +425,26 @@ def fn_atoms(body, is_atom=None):
                 atoms(t, env, is_atom, out)
     visit_block(body)
     return out
+
+
+class NoInline:
+    """LetEnv wrapper that keeps the named locals as atoms (they are not inlined)."""
+
+    def __init__(self, env, names):
+        self.env = env
+        self.names = set(names)
+
+    def init_of(self, local, any_type=False):
+        if local.get("name") in self.names:
+            return None
+        return self.env.init_of(local, any_type)
+
+
+class AllInline:
+    """LetEnv wrapper that inlines every single-initialiser local regardless of type."""
+
+    def __init__(self, env):
+        self.env = env
+
+    def init_of(self, local, any_type=False):
+        return self.env.init_of(local, True)
